@@ -543,37 +543,18 @@ func runC09(c *Ctx) {
 			// the exception list: appended exactly when Whitelist, in a full scan of the DNSRewritesAll() result
 			okList := false
 			if ro != nil {
-				var apps []*ssa.Call
-				var back func(v ssa.Value, seen map[ssa.Value]bool)
-				back = func(v ssa.Value, seen map[ssa.Value]bool) {
-					if seen[v] {
-						return
-					}
-					seen[v] = true
-					switch x := v.(type) {
-					case *ssa.Phi:
-						for _, e := range x.Edges {
-							back(e, seen)
-						}
-					case *ssa.Call:
-						if b, ok := x.Call.Value.(*ssa.Builtin); ok && b.Name() == "append" {
-							apps = append(apps, x)
-							back(x.Call.Args[0], seen)
-						}
-					}
-				}
-				back(ro.Coll, map[ssa.Value]bool{})
-				for _, ap := range apps {
-					la := innermostLoop(loops, ap.Block())
-					e := s.Env[ap]
-					if la == nil || e == nil || e.Op != "append" || e.Aux != "elems" || len(e.Args) != 2 {
+				ems, _ := traceAppends(g, AV{s, ro.Coll})
+				for _, em := range ems {
+					act := em.Act
+					la := innermostLoop(loopsOf(act.Fn), em.Call.Block())
+					if la == nil || len(em.Elems) != 1 {
 						continue
 					}
 					roa := rangedOver(la)
-					el := e.Args[1]
-					want := u.bdd.And(u.bdd.And(s.RC[la.Header], contCond(u, s, la)), u.Atom(u.Field(el, "Whitelist", types.Typ[types.Bool])))
-					srcOK := roa != nil && roa.Full && onlyExhaustionExit(la) && s.Env[roa.Coll] != nil && s.Env[roa.Coll].Op == "call" && s.Env[roa.Coll].Aux == calleeName(dra)
-					if srcOK && s.RC[ap.Block()] == want && el.Op == "index" && el.Args[0] == s.Env[roa.Coll] {
+					el := em.Elems[0]
+					want := u.bdd.And(u.bdd.And(act.RC[la.Header], contCond(u, act, la)), u.Atom(u.Field(el, "Whitelist", types.Typ[types.Bool])))
+					srcOK := roa != nil && roa.Full && onlyExhaustionExit(la) && act.Env[roa.Coll] != nil && act.Env[roa.Coll].Op == "call" && act.Env[roa.Coll].Aux == calleeName(dra)
+					if srcOK && em.RC == want && el.Op == "index" && el.Args[0] == act.Env[roa.Coll] {
 						okList = true
 					}
 				}
